@@ -17,23 +17,27 @@ Conv(x) == IF x[1] = 5 THEN [where |-> "iov", pos |-> 0, len |-> x[3], pieces |-
 Real(r) == [out |-> r.out, body |-> R(CodeName(r.body[1]), r.body[2], r.S), res |-> [i \in 1..Len(r.res) |-> Conv(r.res[i])]]
 MsgOf(r) == [ck |-> r.ck, S |-> r.S, fs |-> r.sch]
 
+NormP(ps) == [k \in 1..Len(ps) |-> IF ps[k].n = 0 THEN El(0, 0) ELSE ps[k]]     \* an empty piece has no position
 SameRes(a, m) ==      \* recorded result a = model result m
   /\ a.where = m.where
   /\ a.where \in {"in", "copy", "wire", "iov"} => a.len = m.len
   /\ a.where = "in" => a.pos = m.pos
   /\ a.where = "copy" => (a.pos = m.pos \/ a.pos = -2)
-  /\ a.where = "iov" => a.pieces = m.pieces
+  /\ a.where = "iov" => NormP(a.pieces) = NormP(m.pieces)
 \* words of array elements / index slices are logged from their honest place in the bytes: the model's
 \* prediction is exact only if the array (index) is claimed from exactly there
-Exact(msg, d, W) ==
-  LET dfs == Dfs(msg)  sp == StartPos(msg) IN
+\* (the slices are also logged as the receiver has them, SLr, once the index was delivered)
+SLof(r) == IF "SLr" \in DOMAIN r THEN r.SLr ELSE r.SL
+Exact(cx, d, r) ==
+  LET dfs == cx.dfs  sp == cx.sp  W == r.W IN
   d.res = <<>> \/ \A i \in 1..Len(dfs) :
-     (dfs[i].k \in {"arrm", "idx"} /\ W[i] \div dfs[i].es > 0 /\ d.res[i].where \in {"in", "copy"}) => d.res[i].pos = sp[i]
-Transcription(r, msg, d) ==
+     (dfs[i].k \in (IF "SLr" \in DOMAIN r THEN {"arrm"} ELSE {"arrm", "idx"}) /\ W[i] \div dfs[i].es > 0 /\ d.res[i].where \in {"in", "copy"})
+        => d.res[i].pos = sp[i]
+Transcription(r, cx, d) ==
   LET real == Real(r) IN
-  IF ~Exact(msg, d, r.W) THEN {}
+  IF ~Exact(cx, d, r) THEN {}
   ELSE IF r.out # d.out THEN {"differs from the transcribed deserialize: outcome " \o r.out \o " / model " \o d.out}
-  ELSE IF r.out # "ok" THEN {}
+  ELSE IF r.out # "ok" \/ r.mode = "alter" THEN {}      \* (an altered message only has to be refused: fields not recorded)
   ELSE (IF ~SameRes(real.body, d.body) THEN {"differs from the transcribed deserialize: body"} ELSE {})
        \cup {"differs from the transcribed deserialize: field " \o ToString(i) : i \in {j \in 1..Len(d.res) : ~SameRes(real.res[j], d.res[j])}}
 
@@ -43,40 +47,41 @@ CopyProblems(r) ==
       i \in {j \in 1..Len(r.res) : r.res[j][1] = 1 /\ (r.res[j][4] < 0 \/ r.res[j][2] = -1)}}
 
 \* sorted_map: every entry (in index order) resolves to the sender's key / value, every key is found where it is
-MapProblems(r, msg) ==
-  IF ~HasMap(msg) THEN {}
+MapProblems(r, msg, cx) ==
+  IF ~HasMapOf(cx.dfs) THEN {}
   ELSE LET sls == HonestSL(msg)
            want == [i \in 1..Len(sls) |-> <<sls[i][1], sls[i][2], r.lke[i][1], IF r.lke[i][2] = 0 THEN -1 ELSE sls[i][3], r.lke[i][2], r.lke[i][3]>>]
        IN (IF r.lk # want THEN {"map entries differ from what was sent"} ELSE {})
           \cup (IF r.fd # [i \in 1..(Len(sls) + 1) |-> i - 1] THEN {"map find() does not locate the keys"} ELSE {})
 
-Property(r, msg) ==
+Property(r, msg, cx) ==
   LET real == Real(r) IN
   IF r.mode = "rt"
-  THEN (IF r.N # FlatLen(msg) THEN {"serialized length differs from the fields' lengths (a field was not serialized)"} ELSE {})
-       \cup (IF r.W # HonestW(msg) THEN {"wire words differ from the fields' lengths"} ELSE {})
+  THEN (IF r.N # SumLens(cx.ord, Len(cx.ord)) + cx.S THEN {"serialized length differs from the fields' lengths (a field was not serialized)"} ELSE {})
+       \cup (IF r.W # [i \in 1..Len(cx.dfs) |-> cx.dfs[i].n] THEN {"wire words differ from the fields' lengths"} ELSE {})
        \cup (IF r.out # "ok" THEN {"round trip refused"}
-             ELSE {"round trip: field not delivered " \o ToString(i) : i \in RoundTripBad(msg, real)}
+             ELSE {"round trip: field not delivered " \o ToString(i) : i \in RoundTripBadC(cx, real)}
                   \cup (IF r.fx # r.fxe THEN {"round trip: fixed fields differ"} ELSE {})
-                  \cup MapProblems(r, msg))
+                  \cup MapProblems(r, msg, cx))
        \cup CopyProblems(r)
   ELSE IF r.mode = "alter"
   THEN (IF r.ck /\ r.out = "ok" THEN {"altered byte accepted by a checked message"} ELSE {})
-  ELSE {"hostile: not contained " \o ToString(x) : x \in HostileBad(msg, r.W, r.SL, r.part, real)} \cup CopyProblems(r)
+  ELSE {"hostile: not contained " \o ToString(x) : x \in HostileBadC(cx, r.W, SLof(r), r.part, real)} \cup CopyProblems(r)
 
 \* a Fatal line (sanitizer report / signal while the real code ran or while its result was read)
-FatalExplained(r, msg, d) ==     \* only ever TRUE with a KF_ deviation enabled
+FatalExplained(r, cx, d) ==     \* only ever TRUE with a KF_ deviation enabled
   IF r.stage = "deser" THEN d.out = "crash"
-  ELSE d.out = "ok" /\ (IF r.mode = "rt" THEN RoundTripBad(msg, d) # {} ELSE HostileBad(msg, r.W, r.SL, r.part, d) # {})
+  ELSE d.out = "ok" /\ (IF r.mode = "rt" THEN RoundTripBadC(cx, d) # {} ELSE HostileBadC(cx, r.W, SLof(r), r.part, d) # {})
 
 Problems(r) ==
   LET msg == MsgOf(r)
-      d == Deser(msg, r.W, r.SL, r.part, r.alt)
+      cx == Cx(msg)
+      d == DeserC(cx, r.W, SLof(r), r.part, r.alt)
   IN IF r.e = "Fatal"
-     THEN (IF Classify /\ Exact(msg, d, r.W) /\ FatalExplained(r, msg, d) THEN {}
+     THEN (IF Classify /\ Exact(cx, d, r) /\ FatalExplained(r, cx, d) THEN {}
            ELSE {"fatal (" \o r.asan \o ") in stage " \o r.stage \o ", field/entry " \o ToString(r.fwi) \o "; model outcome " \o d.out})
-     ELSE IF Classify THEN Transcription(r, msg, d) \cup (IF Exact(msg, d, r.W) THEN {} ELSE {"not exact"})
-     ELSE Property(r, msg) \cup Transcription(r, msg, d)
+     ELSE IF Classify THEN Transcription(r, cx, d) \cup (IF Exact(cx, d, r) THEN {} ELSE {"not exact"})
+     ELSE Property(r, msg, cx) \cup Transcription(r, cx, d)
 
 Init == l = 1
 Next == /\ l <= Len(Tr)
